@@ -155,7 +155,13 @@ def ieee_triggers(ctx, chk, q, Pv, CI, AL, N, nmax=1500):
 def aggregate(ctx, chk):
     q = RC + "_aggregate_rectangles"
     X, DX, DY = (Sym(n, ("param", "array", "notnone")) for n in ("x", "dxp", "dyp"))
-    outs = ctx.explore(lambda: ctx.ev.call(ctx.fn(q), [X, DX, DY], {}), chk)
+    # arguments by ROLE (parameter name), not by position: the private helper's parameter order is not part of the property
+    fi_ = ctx.db.function(q)
+    pnames = [a.arg for a in fi_.node.args.posonlyargs + fi_.node.args.args]
+    if set(pnames) == {"x", "dxp", "dyp"} and not fi_.node.args.posonlyargs:
+        outs = ctx.explore(lambda: ctx.ev.call(ctx.fn(q), [], {"x": X, "dxp": DX, "dyp": DY}), chk)
+    else:
+        outs = ctx.explore(lambda: ctx.ev.call(ctx.fn(q), [X, DX, DY], {}), chk)
     rets = returns(outs)
     if len(rets) != 1 or rets[0].unmodelled:
         chk.unknown("R16.6", "_aggregate_rectangles: %d return paths %s" % (len(rets), rets and unmodelled_text(rets[0])))
